@@ -15,6 +15,9 @@ inductive Kind where
   | lazyContainer   -- XalanList / XalanMap / XalanSet member (lazily allocated list head) of a class that is part of a shared object;
                     -- `funcs` = the const member functions that use it, preceded by "@forced" when the constructor /
                     -- postConstruction (or a member function they call) calls its non-const begin()/end()
+  | guardedWrite    -- in a class with `mutable` members: a const member function calls a function that mutates one of them
+                    -- (directly, or through unguarded calls inside the class); name = `caller->callee#n`, the guard condition of
+                    -- the call is in `Generated.C07_Share.guards`; `f#unguarded` = a const mutator nobody in its files calls
   | localStatic     -- non-const function-local static in such a file
   | globalVar       -- non-const static data member / file-scope static (process-wide state)
   | transformTouch  -- a function reachable from a NON-STATIC member of XalanTransformer (the per-thread API) through
@@ -42,6 +45,7 @@ def Kind.toString : Kind → String
   | .constCast => "constCast"
   | .constPathCall => "constPathCall"
   | .lazyContainer => "lazyContainer"
+  | .guardedWrite => "guardedWrite"
   | .localStatic => "localStatic"
   | .globalVar => "globalVar"
   | .transformTouch => "transformTouch"
@@ -105,7 +109,44 @@ inductive Guard where
   /-- (transformTouch) the function only reads the process-wide variable (hand-checked; the writers are the static
   initialize/terminate/install*Global members, which are not reachable from the per-thread API) -/
   | readOnlyUse
+  /-- (guardedWrite) the call that mutates the shared wrapper is made only in the building / mapping phase: the guard condition
+  extracted from the source must IMPLY `m_mappingMode == true` (machine-checked: `guardEvidence`, `guards_imply_mapping_phase`);
+  `m_mappingMode` is `false` for every wrapper built with `threadSafe` or `buildWrapper` (XercesDocumentWrapper.cpp:96) -/
+  | mappingPhaseOnly
 deriving DecidableEq, Repr
+
+/-- a guard condition: the conjunction of the `if` conditions enclosing a call, over numbered variables -/
+inductive Cond where
+  | tt
+  | var (i : Nat) (val : Bool)      -- variable `i` has value `val` (`m_flag == true`, `!m_flag`, an opaque sub-expression …)
+  | and (a b : Cond)
+  | or (a b : Cond)
+  | not (a : Cond)
+deriving Repr
+
+def Cond.eval (env : List Bool) : Cond → Bool
+  | .tt => true
+  | .var i v => (env.getD i false) == v
+  | .and a b => a.eval env && b.eval env
+  | .or a b => a.eval env || b.eval env
+  | .not a => !a.eval env
+
+/-- all assignments of `n` boolean variables -/
+def allEnvs : Nat → List (List Bool)
+  | 0 => [[]]
+  | n + 1 => (allEnvs n).flatMap fun e => [false :: e, true :: e]
+
+structure GuardEntry where
+  key : Nat
+  vars : List String
+  cond : Cond
+deriving Repr
+
+/-- under every assignment of the variables, the condition forces variable `flag` to be true -/
+def GuardEntry.implies (g : GuardEntry) (flag : String) : Bool :=
+  match g.vars.findIdx? (· == flag) with
+  | none => false
+  | some i => (allEnvs g.vars.length).all fun env => !g.cond.eval env || env.getD i false
 
 
 end XalanModel.C07
